@@ -214,8 +214,8 @@ func init() {
 		LevelNote: "accepted repairs: save/restore of *recv in a defer, or delegation to a fresh value", DesignRef: "4 SE, PAIR; 5 C10"})
 
 	claim("C11", PropertySpec{
-		Engines: []EngineSpec{all("SE"), funcs("TB", "checkAndPropagateArgsForUnion"), all("RS"), all("GEN")},
-		Clause: "The two global-state channels that are structurally checkable: evaluator and strategy singletons (43 types in the two registries) carry no state across (nested) evaluations — no store through the receiver in any method that can run on the singleton (SE); and the union-receiver call path does not accumulate return types into shared method-table entries (TB, the channel the property names; the full table-immutability rule is C12); and parser fields that carry per-call state from method evaluation to block/definition evaluation are reset when the next method evaluation starts, cleared by a defer, or consumed on read (RS); fresh-name counters are monotone over the process, so no synthetic name is handed out twice (GEN).",
+		Engines: []EngineSpec{all("SE"), funcs("TB", "checkAndPropagateArgsForUnion"), all("RS"), all("GEN"), notPkgs("MEMO", "cmd/rbs2json", "cmd/c2json")},
+		Clause: "The two global-state channels that are structurally checkable: evaluator and strategy singletons (43 types in the two registries) carry no state across (nested) evaluations — no store through the receiver in any method that can run on the singleton (SE); and the union-receiver call path does not accumulate return types into shared method-table entries (TB, the channel the property names; the full table-immutability rule is C12); and parser fields that carry per-call state from method evaluation to block/definition evaluation are reset when the next method evaluation starts, cleared by a defer, or consumed on read (RS); fresh-name counters are monotone over the process, so no synthetic name is handed out twice (GEN); a memo table, where there is one, is keyed by everything the memoised computation depends on (MEMO).",
 		NotCovered: "the isParsingExpression flag, per-call state kept outside the parser",
 	}, propMeta{Technique: "receiver-alias/effect analysis of registered singletons over go/ssa + taint on the union path + per-call parser state reset rules (must-write before read in the definition evaluator) + monotone fresh-name counters",
 		LevelText: "all registered types and all methods reachable on the shared receiver are enumerated and decided.",
@@ -301,14 +301,14 @@ func init() {
 	}, propMeta{Technique: "dominance rule over go/ssa + same-receiver rule for qualified-name concatenations over the type-checked AST + visited-set key type rule", LevelText: "all frame reads feeding keys in frame-switching evaluators are enumerated and decided.", LevelNote: "SetFrame/GetFrame anchored by name on context.Context", DesignRef: "4 ORD-frame; 5 C27"})
 
 	claim("C25", PropertySpec{
-		Engines: []EngineSpec{inPkgs("MO", "cmd/rbs2json"), rules("ORD", "ORD-args"), funcs("REGJ", "cmd/rbs2json"), inPkgs("LA", "builtin")},
-		Clause: "No range over a map in rbs2json leaks iteration order into the emitted JSON; the argument converter appends the six parameter groups in signature order and sets is_default / is_asterisk / key exactly for the groups that need them (groups and flags resolved through their JSON tags); every JSON key the tool emits is read, at the same nesting and with a compatible type, by the loader's structs, and every type-name constant it can emit is a loader keyword or a configured class; in the loader that turns the emitted arguments into parameter values, every address retained per loop iteration (keyword parameters keep a pointer to their type) points to a variable of that iteration.",
+		Engines: []EngineSpec{inPkgs("MO", "cmd/rbs2json"), rules("ORD", "ORD-args"), funcs("REGJ", "cmd/rbs2json"), inPkgs("LA", "builtin", "cmd/rbs2json"), inPkgs("MEMO", "cmd/rbs2json", "builtin")},
+		Clause: "No range over a map in rbs2json leaks iteration order into the emitted JSON; the argument converter appends the six parameter groups in signature order and sets is_default / is_asterisk / key exactly for the groups that need them (groups and flags resolved through their JSON tags); every JSON key the tool emits is read, at the same nesting and with a compatible type, by the loader's structs, and every type-name constant it can emit is a loader keyword or a configured class; in the loader that turns the emitted arguments into parameter values, every address retained per loop iteration (keyword parameters keep a pointer to their type) points to a variable of that iteration; and in the converter a look-up table that is written inside a loop and handed to the callees of the iteration is made inside that loop (a per-class alias table is not the file-level map under another name).",
 		NotCovered: "RBS type mapping beyond name agreement, arity as checked by ti beyond the loader's aliasing discipline",
 	}, propMeta{Technique: "effect classification of map-range bodies over the type-checked AST + group/flag agreement through JSON tags + writer/loader agreement of JSON keys, type names and prefix notation + loop-retained address rule in the loader", LevelText: "every map range of the tool is enumerated and classified.", LevelNote: "conservative classification", DesignRef: "4 MO; 5 C25"})
 
 	claim("C26", PropertySpec{
-		Engines: []EngineSpec{inPkgs("MO", "cmd/c2json"), funcs("REGJ", "cmd/c2json")},
-		Clause: "No range over a map in c2json leaks iteration order into the emitted JSON (this settles the sentence 'the output is deterministic' for all inputs as far as map order is concerned); every JSON key the tool emits is read by the loader's structs with a compatible type, and every type-name constant it can emit (after the loader's ? * notation rules) is a loader keyword or a configured class; a `?T` / `*T` entry, which the loader reads as default / rest only in a one-entry type list (derived from the loader on every run), is never put into or left in a longer list.",
+		Engines: []EngineSpec{inPkgs("MO", "cmd/c2json"), funcs("REGJ", "cmd/c2json"), inPkgs("MEMO", "cmd/c2json")},
+		Clause: "No range over a map in c2json leaks iteration order into the emitted JSON (this settles the sentence 'the output is deterministic' for all inputs as far as map order is concerned); every JSON key the tool emits is read by the loader's structs with a compatible type, and every type-name constant it can emit (after the loader's ? * notation rules) is a loader keyword or a configured class; a `?T` / `*T` entry, which the loader reads as default / rest only in a one-entry type list (derived from the loader on every run), is never put into or left in a longer list; a memo table of the tool is keyed by everything the memoised analysis depends on (a C function registered twice with different argument specs is analysed per registration).",
 		NotCovered: "the arity equivalence beyond that (regex heuristics over C text)",
 	}, propMeta{Technique: "effect classification of map-range bodies over the type-checked AST + writer/loader agreement of JSON keys, type names and prefix notation (loader side derived on every run)", LevelText: "every map range of the tool is enumerated and classified.", LevelNote: "conservative classification", DesignRef: "4 MO; 5 C26"})
 }
